@@ -11,8 +11,9 @@ import subprocess
 from vlib import *
 import check_core
 import check_cli
+import sched_replay
 
-REPLAY_KINDS = ("file-trace", "conc-trace")
+REPLAY_KINDS = ("file-trace", "conc-trace", "sched")
 
 
 def file_cfg(writers, readers, npages, maxsess, threads, invs, props=(), spec="Spec", quirks="{}"):
@@ -70,7 +71,7 @@ def mc_file(wd, prop, tier):
     # the invariants are not vacuous: each quirk of the specification violates its property
     quirk_results = {}
     if tier == "thorough":
-        for q, inv in (("NoFlock", "Mutex"), ("D6", "LockLifetime"), ("CloseFlushes", "NoLostUpdate")):
+        for q, inv in (("NoFlock", "Mutex"), ("D6", "LockLifetime"), ("CloseFlushes", "NoLostUpdate"), ("CreateNoLock", "Mutex")):
             r = run_tlc(wd, "WhisperFile", file_cfg(["w1", "w2"], ["r1"], 3, 2, ["t1"], C13_INV, [], "Spec", '{"%s"}' % q), "q" + q, 4, 3000)
             quirk_results[q] = r["violated"]
             if not r["violated"] or inv not in r["violated"]:
@@ -84,10 +85,12 @@ def run_c13(tier, seed):
     try:
         binp = build_harness(wd)
         states, trans, runs, quirks = mc_file(wd, "C13", tier)
+        # spec -> code: every transition of the labelled state graph replayed as a deterministic schedule
+        sched_cov = sched_replay.run(wd, binp, "C13", tier, seed, v)
         rounds = {"quick": 32, "thorough": 800}[tier]
         nparts = 4 if tier == "quick" else NCPU // 2
         accepted = total = 0
-        samples = []
+        samples = list(sched_cov.pop("samples"))
 
         def part(i):
             tf = os.path.join(wd, "file%d.ndjson" % i)
@@ -111,11 +114,13 @@ def run_c13(tier, seed):
                         json.dumps(bad["line"]), json.dumps(bad["prev"][-2:]))
                     v.violation(what, {"kind": "file-trace", "seed": bad["seed"], "rejected": bad["line"], "before": bad["prev"]},
                                 "openfail:" + str(bad["line"].get("what")) if bad["line"].get("ev") == "openfail" else None)
-        cov = {"states": states, "transitions": trans, "traces_validated_against_impl": accepted, "samples": samples[:3] or ["none"],
+        cov = {"states": states, "transitions": trans, "traces_validated_against_impl": accepted + sched_cov["behaviours"],
+               "samples": samples[:4] or ["none"],
                "exhaustive": True, "tlc_runs": runs, "session_events_validated": accepted, "session_events": total,
-               "quirk_regressions": quirks}
+               "quirk_regressions": quirks, "schedules_replayed": sched_cov}
         return v.finish("model_checking", cov, [
             "TLC explores every interleaving of the listed processes/pages/sessions incl. crashes at any point; the liveness property OpenReturns is checked under weak fairness on a smaller configuration",
+            "schedule replay: transition tours cover every transition of the labelled graph of MC_FileReplay (configuration in schedules_replayed.graph); processes are goroutines of one OS process stopped by the verif yield hook after os.OpenFile and after flock; page reads/flushes happen inside github.com/hnakamur/filebuffer (outside the repository, no yield point), so a Sync is one step and a crash while blocked in flock or in the middle of a Sync is not replayed; a process the specification keeps waiting is let into flock early and must not come through (negative test)",
             "real sessions run free (goroutines and separate processes, 3 writers + 2 readers with 2 fetch threads each, 3-page archive); the event log's order is the order of O_APPEND writes; opendone is logged after Open returned and closestart before Close is called, so overlap of logged intervals implies overlap of real handles (no false alarm), while a real overlap may go unobserved in a particular schedule",
             "failed Open/Create: nine malformed files and a Truncate failure under RLIMIT_FSIZE, each followed by a non-blocking flock probe of the path"])
     finally:
@@ -183,6 +188,8 @@ def run_c17(tier, seed):
 
 def replay(wd, prop, rp, path):
     """re-run the seeded free-running driver part and validate it again"""
+    if rp["kind"] == "sched":
+        return sched_replay.replay(wd, prop, rp, path)
     if rp["kind"] == "file-trace":
         binp = build_harness(wd)
         tf = os.path.join(wd, "f.ndjson")
